@@ -16,7 +16,8 @@ VERIF = os.path.dirname(os.path.dirname(os.path.abspath(__file__)))
 COQ = os.path.join(VERIF, "coq")
 HARNESS = os.path.join(VERIF, "harness")
 WORK = os.path.join(VERIF, "work")
-EVIDENCE = os.path.join(VERIF, "evidence")
+# runs against a deliberately changed /repo (tools/seed*.py) must not overwrite the committed evidence
+EVIDENCE = os.environ.get("VERIF_EVIDENCE_DIR") or os.path.join(VERIF, "evidence")
 CORPUS = os.path.join(VERIF, "corpus")
 REPO = "/repo"
 NPROC = 16
